@@ -136,6 +136,21 @@ int main(int argc, char **argv) {
     n += snprintf(buf + n, sizeof buf - n, "]\n");
     write(1, buf, n);
     _exit(0);
+  } else if (!strcmp(c, "fds")) {
+    // descriptor table of this process: [[fd, dev, ino, accmode, cloexec], ...] written to the file argv[2]
+    static char buf[1 << 20]; int n = 0; n += snprintf(buf + n, sizeof buf - n, "[");
+    int first = 1, maxfd = argc > 3 ? atoi(argv[3]) : 4096;
+    for (int fd = 0; fd < maxfd; fd++) {
+      struct stat st; if (fstat(fd, &st) != 0) continue;
+      int fl = fcntl(fd, F_GETFL), fdfl = fcntl(fd, F_GETFD);
+      n += snprintf(buf + n, sizeof buf - n, "%s[%d,%lu,%lu,%d,%d]", first ? "" : ",", fd, (unsigned long)st.st_dev, (unsigned long)st.st_ino, fl & 3, fdfl & 1);
+      first = 0;
+    }
+    n += snprintf(buf + n, sizeof buf - n, "]\n");
+    int out = open(argv[2], O_CREAT | O_WRONLY | O_TRUNC, 0600);
+    if (out < 0) _exit(98);
+    write(out, buf, n); close(out);
+    _exit(0);
   } else if (!strcmp(c, "hello")) {
     write(1, "hello\n", 6); _exit(0);
   }
